@@ -203,7 +203,7 @@ impl Prop for C17 {
                 }
                 if rng.chance(1, 6) {
                     case.args.push("-d".into());
-                    case.args.push((*rng.pick(&[";", "\t", " ", "ä", ""])).to_string());
+                    case.args.push((*rng.pick(&[";", "\t", " ", "ä", "", "€", "→", "😀", "\u{0}", "ab"])).to_string());
                 }
                 let bytes = spectrum_bytes(&spec, rng.chance(1, 2), 6);
                 deliver(&mut rng, &mut case, bytes);
@@ -314,6 +314,20 @@ impl Prop for C17 {
                     1 => case.args = vec!["fold".into()],
                     _ => case.args = vec!["stat".into(), "-s".into(), (*rng.pick(&STATS)).to_string()],
                 }
+                deliver(&mut rng, &mut case, bytes);
+            }
+            10 if rng.chance(1, 6) => {
+                // thousands of unit axes: the npy header outgrows the two-byte length field of
+                // format version 1.0 (65,535 bytes)
+                case.family = "thousands_of_axes".into();
+                let n = *rng.pick(&[3000usize, 21000, 21800, 21840, 21850, 22000, 30000]);
+                let shape_txt = vec!["1"; n].join("/");
+                let bytes = text_spectrum(&shape_txt, "5");
+                case.args = match rng.below(3) {
+                    0 => vec!["view".into()],
+                    1 => vec!["fold".into()],
+                    _ => vec!["view".into(), "-O".into(), "npy".into()],
+                };
                 deliver(&mut rng, &mut case, bytes);
             }
             10 => {
